@@ -32,6 +32,11 @@ class Obj:
     def __init__(self, cls, attrs):
         self.cls = cls
         self.attrs = dict(attrs)
+    def __getattr__(self, name):
+        a = self.__dict__.get('attrs', {})
+        if name in a:
+            return a[name]
+        raise AttributeError(name)
     def set(self, name, val):
         a = dict(self.attrs); a[name] = val
         return Obj(self.cls, a)
@@ -57,6 +62,8 @@ class SymSeq:
     def store(self, key, val):
         s = dict(self.stores); s[key] = val
         return SymSeq(self.name, self.getter, self.length, s)
+    def __getitem__(self, key):
+        return self.get(str(key))
 
 
 class SymIndex:
@@ -304,7 +311,14 @@ class Exec:
 
     def store(self, base, key, v, node, st):
         if isinstance(base, SymSeq):
-            return base.store(self.index_key(key, base), v)
+            k = self.index_key(key, base)
+            h = self.lib.get('seq_store_check')
+            if h is not None:
+                h(self, st, node, base, k)
+            new = base.store(k, v)
+            if hasattr(base, 'generic'):
+                new.generic = base.generic
+            return new
         if isinstance(base, (tuple, list)):
             if isinstance(key, int):
                 l = list(base)
@@ -414,7 +428,10 @@ class Exec:
                 n = hi - lo
                 if not isinstance(n, int):
                     raise Unsupported('sequence slice of symbolic length')
-                return tuple(base.get(self.index_key(lo + k, base)) for k in range(n))
+                return tuple(self.getitem(base, lo + k, node, st) for k in range(n))
+            h = self.lib.get('seq_get')
+            if h is not None:
+                return h(self, st, node, base, self.index_key(key, base))
             return base.get(self.index_key(key, base))
         if isinstance(base, (tuple, list, str)):
             if isinstance(key, (int, slice)):
@@ -480,6 +497,10 @@ class Exec:
                 return _PYOPS[type(op)](l, r)
         if isinstance(l, (tuple, list)) and _is_z3(r) or isinstance(r, (tuple, list)) and _is_z3(l) or \
            isinstance(l, (tuple, list)) and isinstance(r, SymIndex) or isinstance(r, (tuple, list)) and isinstance(l, SymIndex):
+            h = self.lib.get('binop_rep')
+            r2 = h(self, st, node, op, l, r) if h is not None else NotImplemented
+            if r2 is not NotImplemented:
+                return r2
             raise Unsupported('list repetition with symbolic count')
         h = self.lib.get('binop')
         if h is not None:
@@ -557,6 +578,12 @@ class Exec:
             return _PYCMP[type(op)](l, r)
         if isinstance(l, SymIndex) and isinstance(r, SymIndex) and l.base == r.base:
             return _PYCMP[type(op)](l.off, r.off)
+        if isinstance(l, SymIndex) or isinstance(r, SymIndex):
+            h = self.lib.get('compare')
+            if h is not None:
+                r2 = h(self, st, node, op, l, r)
+                if r2 is not NotImplemented:
+                    return r2
         if isinstance(l, str) or isinstance(r, str):
             if isinstance(op, ast.Eq): return False
             if isinstance(op, ast.NotEq): return True
